@@ -140,3 +140,106 @@ theorem andRef_of_todo {s : State} {n : Nat} {a : Act} {j : Job} (ha : InTodos s
   exact andInTodos_true.mpr ⟨a, j, ha, hj, hn⟩
 
 end MoThreads.Composite
+
+namespace MoThreads.Composite
+open MoThreads
+
+/-! ### counting pending actions -/
+
+/-- how many times action `a` is pending, over all threads -/
+def cnt (s : State) (a : Act) : Nat := sumTo NT (fun t => (s.todo t).count a)
+
+theorem sumTo_pos {n : Nat} {f : Nat → Nat} : 0 < sumTo n f ↔ ∃ i, i < n ∧ 0 < f i := by
+  induction n with
+  | zero => simp [sumTo]
+  | succ n ih =>
+    simp only [sumTo]
+    constructor
+    · intro h
+      by_cases hn : 0 < f n
+      · exact ⟨n, by omega, hn⟩
+      · have : 0 < sumTo n f := by omega
+        obtain ⟨i, hi, hf⟩ := ih.mp this
+        exact ⟨i, by omega, hf⟩
+    · rintro ⟨i, hi, hf⟩
+      by_cases hin : i = n
+      · subst hin; omega
+      · have : 0 < sumTo n f := ih.mpr ⟨i, by omega, hf⟩
+        omega
+
+theorem cnt_pos {s : State} {a : Act} : 0 < cnt s a ↔ InTodos s a := by
+  unfold cnt InTodos
+  rw [sumTo_pos]
+  constructor
+  · rintro ⟨t, ht, h⟩; exact ⟨t, ht, List.count_pos_iff.mp h⟩
+  · rintro ⟨t, ht, h⟩; exact ⟨t, ht, List.count_pos_iff.mpr h⟩
+
+theorem cnt_zero {s : State} {a : Act} : cnt s a = 0 ↔ ¬ InTodos s a := by
+  rw [← cnt_pos]; omega
+
+theorem TodoStep.cnt_eq {s s' t a0 rest new} (h : TodoStep s s' t a0 rest new) (b : Act) :
+    cnt s' b + (if b = a0 then 1 else 0) = cnt s b + new.count b := by
+  have key := sumTo_update (n := NT) (f := fun u => (s.todo u).count b) (g := fun u => (s'.todo u).count b) (t := t) h.ht
+    (by intro i hi; show (s.todo i).count b = (s'.todo i).count b; rw [h.hs']; simp [upd, hi])
+  have hF : (s.todo t).count b = rest.count b + (if b = a0 then 1 else 0) := by
+    rw [h.hs, List.count_cons]
+    by_cases hb : b = a0
+    · subst hb; simp
+    · have : ¬ a0 = b := fun h => hb h.symm
+      simp [hb, this]
+  have hG : (s'.todo t).count b = new.count b + rest.count b := by
+    rw [h.hs']; simp [upd, List.count_append]
+  have e1 : cnt s' b = sumTo NT (fun u => (s'.todo u).count b) := rfl
+  have e2 : cnt s b = sumTo NT (fun u => (s.todo u).count b) := rfl
+  omega
+
+theorem TodoPush.cnt_eq {s s' t pre} (h : TodoPush s s' t pre) (b : Act) : cnt s' b = cnt s b + pre.count b := by
+  have key := sumTo_update (n := NT) (f := fun u => (s.todo u).count b) (g := fun u => (s'.todo u).count b) (t := t) h.ht
+    (by intro i hi; show (s.todo i).count b = (s'.todo i).count b; rw [h.hs']; simp [upd, hi])
+  have hG : (s'.todo t).count b = pre.count b + (s.todo t).count b := by
+    rw [h.hs']; simp [upd, List.count_append]
+  have e1 : cnt s' b = sumTo NT (fun u => (s'.todo u).count b) := rfl
+  have e2 : cnt s b = sumTo NT (fun u => (s.todo u).count b) := rfl
+  omega
+
+theorem cnt_congr {s s' : State} (h : s'.todo = s.todo) (a : Act) : cnt s' a = cnt s a := by
+  unfold cnt; rw [h]
+
+theorem count_map_run (l : List Job) (j : Job) : (l.map Act.run).count (Act.run j) = l.count j := by
+  induction l with
+  | nil => rfl
+  | cons x r ih =>
+    simp only [List.map_cons, List.count_cons, ih]
+    by_cases hx : x = j
+    · subst hx; simp
+    · have : ¬ Act.run x = Act.run j := by intro he; injection he with h1; exact hx h1
+      simp [hx, this]
+
+end MoThreads.Composite
+
+namespace MoThreads.Composite
+open MoThreads
+
+theorem sumTo_ge_one {n : Nat} {f : Nat → Nat} {t : Nat} (ht : t < n) : f t ≤ sumTo n f := by
+  induction n with
+  | zero => omega
+  | succ n ih =>
+    simp only [sumTo]
+    by_cases htn : t = n
+    · subst htn; omega
+    · have := ih (by omega); omega
+
+theorem sumTo_ge_two {n : Nat} {f : Nat → Nat} {t u : Nat} (ht : t < n) (hu : u < n) (hne : t ≠ u) : f t + f u ≤ sumTo n f := by
+  have key := sumTo_update (n := n) (f := f) (g := fun i => if i = t then 0 else f i) (t := t) ht (by intro i hi; simp [hi])
+  have h1 := sumTo_ge_one (n := n) (f := fun i => if i = t then 0 else f i) (t := u) hu
+  simp only [if_neg (Ne.symm hne), if_true] at h1 key
+  omega
+
+theorem cnt_ge_count {s : State} {a : Act} {t : Nat} (ht : t < NT) : (s.todo t).count a ≤ cnt s a :=
+  sumTo_ge_one (f := fun u => (s.todo u).count a) ht
+
+theorem cnt_ge_two {s : State} {a : Act} {t u : Nat} (ht : t < NT) (hu : u < NT) (hne : t ≠ u) :
+    (s.todo t).count a + (s.todo u).count a ≤ cnt s a :=
+  sumTo_ge_two (f := fun v => (s.todo v).count a) ht hu hne
+
+end MoThreads.Composite
